@@ -28,7 +28,15 @@ RULE = ("Well-shaped oriented manifold surfaces: (tri_surface) triangulations fr
         "numpy rows of dtype int64/int32/int16/uint8/uint32; a third of the translations 1e3..1e7 mesh sizes away from the origin "
         "(tolerances then follow the conditioning L/h); config.sort_neighborhoods on/off; one case in four additionally as numpy float32 "
         "coordinates (single precision tolerances); weight modes spelled lower / Capitalised / UPPER; an unknown weight mode (must raise) "
-        "before the ordinary calls; early-stopping counts up to 2**53+1 and as numpy.int64; values given as numpy.float32. "
+        "before the ordinary calls; early-stopping counts up to 2**53+1 and as numpy.int64; values given as numpy.float32 / python int; "
+        "sparse inputs with a non-zero default, few entries written in decreasing order, some of them 0.0. Round 5: every other case the "
+        "rigidly moved mesh is the SAME mesh object first built and measured (non-persistent calls) on the base coordinates and then moved "
+        "in place (same buffers or new Vec objects); generation-1 garbage collections between the meshes of a case; a deepcopy / pickle copy "
+        "of the measured base mesh is measured again; one case in six carries 1-3 isolated vertices (first / middle / last id; vertex "
+        "normals then skipped); about one tri case in sixty is a strip with 253..257 faces (255..259 vertices, uint8 rows up to id 255); "
+        "scale factors 1.000008 / 0.999997. nonconvex_face: 4..10 vertices incl. regular stars listed from a drawn vertex, notches "
+        "optionally filled with triangles; face_area / total_area / mean_face_area must be exact whenever the vertex mean lies in the "
+        "kernel (the recorded algorithm's reach), face_normals whenever the second listed corner is convex. "
         "(interpolation) every interpolate_/scatter_/average_ function x weight mode x scalar/vector x dense/sparse input and output on "
         "a constant and on a random attribute. (nonconvex_face) one planar simple polygon with 4-8 vertices, star-shaped, with at least "
         "one reflex corner (optionally with an out-of-plane neighbour triangle): face_area / face_normals / face_barycenter / total_area "
@@ -700,7 +708,7 @@ def add_isolated(draw, V, F, tags):
 
 @st.composite
 def tri_case(draw, max_faces=44):
-    if max_faces >= 40 and draw(st.integers(0, 39)) == 0:
+    if max_faces >= 40 and draw(st.integers(0, 59)) == 37:
         # element counts around 256 (uint8 ids, one-byte counters): a long triangle strip with 253..257 faces = 255..259 vertices
         nf = draw(st.sampled_from([253, 254, 255, 256, 257]))
         Vs, Fs = G.strip(nf)
@@ -910,7 +918,8 @@ def fn_surface(case, ctx):
     iform, xform = common_labels(case, ctx, V, s, tr)
     how = f" (rows: {xform}" + (f", {iform} coordinates)" if iform else ")")
 
-    r0 = evaluate_surface(ctx, V, F, rnd, "base mesh" + how, True, iform, xform)
+    # (meshes with ~256 elements: one option combination per function keeps the case affordable)
+    r0 = evaluate_surface(ctx, V, F, rnd, "base mesh" + how, len(F) < 120, iform, xform)
     if r0 is None:
         return
     out0, medges0, refv = r0
@@ -918,11 +927,11 @@ def fn_surface(case, ctx):
 
     # rigid motion
     V1 = V @ Rm.T + tr
-    gc.collect()
+    gc.collect(1)
     pre = V if case["seed"] % 2 == 1 else None      # every other case: the moved mesh is the base-coordinate mesh object mutated in place
     r1 = evaluate_surface(ctx, V1, F, rnd, "rigidly moved mesh" + (" [built on the base coordinates, measured, then moved in place]" if pre is not None else "")
                           + f" (rows: {xform}, translation {tr.tolist()})", False, None, xform, False, pre)
-    gc.collect()
+    gc.collect(1)
     if r1 is not None:
         metamorphic(ctx, out0, r1[0], Variant("rigid", Rm, tr), coord_scale(V1), "rigid motion")
     # scaling
@@ -1065,11 +1074,11 @@ def fn_tets(case, ctx):
         return
     out0, medges0, mfaces0 = r0
     V1 = V @ Rm.T + tr
-    gc.collect()
+    gc.collect(1)
     pre = V if case["seed"] % 2 == 1 else None
     r1 = evaluate_tets(ctx, V1, C, rnd, "rigidly moved mesh" + (" [built on the base coordinates, measured, then moved in place]" if pre is not None else "")
                        + f" (rows: {xform}, translation {tr.tolist()})", False, None, xform, False, pre)
-    gc.collect()
+    gc.collect(1)
     if r1 is not None:
         metamorphic(ctx, out0, r1[0], Variant("rigid", Rm, tr), coord_scale(V1), "rigid motion")
     V2 = s * V
@@ -1422,10 +1431,10 @@ def self_test():
 
 
 SUBCHECKS = [
-    SubCheck("tri_surface", tri_case(), fn_surface, quick=600, thorough=600),
-    SubCheck("poly_surface", poly_case(), fn_surface, quick=500, thorough=500),
-    SubCheck("tet_volume", tet_case(), fn_tets, quick=300, thorough=300),
-    SubCheck("interpolation", interp_case(), fn_interp, quick=300, thorough=250),
+    SubCheck("tri_surface", tri_case(), fn_surface, quick=480, thorough=600),
+    SubCheck("poly_surface", poly_case(), fn_surface, quick=400, thorough=500),
+    SubCheck("tet_volume", tet_case(), fn_tets, quick=240, thorough=300),
+    SubCheck("interpolation", interp_case(), fn_interp, quick=240, thorough=250),
     SubCheck("nonconvex_face", nonconvex_case(), fn_nonconvex, quick=200, thorough=200),
 ]
 
